@@ -3,6 +3,8 @@ mod alphabet;
 mod decoder;
 mod engine_a;
 mod engine_b;
+mod engine_c;
+mod props_d;
 mod pool;
 mod props_a;
 mod props_c08;
@@ -47,6 +49,8 @@ fn main() {
             let code = match prop {
                 "C01" => props_a::c01(tier, seed),
                 "C02" => props_a::c02(tier, seed),
+                "C03" => engine_c::c03(tier, seed),
+                "C16" => engine_c::c16(tier, seed),
                 "C05" => props_a::c05(tier, seed),
                 "C06" => props_a::c06(tier, seed),
                 "C08" => props_c08::c08(tier, seed),
@@ -71,6 +75,10 @@ fn main() {
                     }
                     let code = match r.engine.as_str() {
                         "A" => engine_a::replay(&r.config, &r.case),
+                        "B" => engine_b::replay(&r.config, &r.case),
+                        "C03" => engine_c::replay_c03(&r.config, &r.case),
+                        "C16" => engine_c::replay_c16(&r.config, &r.case),
+                        "C18" => engine_c::replay_c18(&r.config, &r.case),
                         _ => {
                             eprintln!("unknown engine {}", r.engine);
                             2
